@@ -46,12 +46,47 @@ def in_regime(P):
 
 
 # ----------------------------------------------------------------------------- implementation
-def impl_encoder(inst, L, P=None):
+OBJECT_VARIANTS = ("shared", "shared", "fresh", "json")
+
+
+def impl_instance_variant(inst, objects="shared"):
+    """The same instance with different object sharing: 'shared' = one Machine object per machine name (vlib.jssp);
+    'fresh' = an equal but distinct Machine object for every operation and for the machines tuple; 'json' = the shared
+    instance sent through JSSPJSONEncoder / JSSPJSONDecoder.  Equality of all of them is structural (frozen dataclasses)."""
+    if objects in (None, "shared"):
+        return jssp.impl_instance(inst)
+    if objects == "fresh":
+        from queasars.job_shop_scheduling.problem_instances import Job, JobShopSchedulingProblemInstance, Machine, Operation
+
+        jobs = tuple(Job(str(j["name"]), tuple(Operation(str(o["name"]), str(o["job"]), Machine(str(o["machine"])), o["dur"]) for o in j["ops"])) for j in inst["jobs"])
+        return JobShopSchedulingProblemInstance(str(inst["name"]), tuple(Machine(str(m)) for m in inst["machines"]), jobs)
+    if objects == "json":
+        import json
+
+        from queasars.job_shop_scheduling.serialization import JSSPJSONDecoder, JSSPJSONEncoder
+
+        pi = jssp.impl_instance(inst)
+        back = json.loads(json.dumps(pi, cls=JSSPJSONEncoder), cls=JSSPJSONDecoder)
+        if back != pi:
+            raise AssertionError("JSON round trip changed the instance")
+        return back
+    raise ValueError(objects)
+
+
+def assign_objects(rng, cases):
+    """Give every generated case an object-sharing variant (corpus cases keep theirs / the default)."""
+    for c in cases:
+        if "objects" not in c and c.get("shape") != "corpus":
+            c["objects"] = rng.choice(OBJECT_VARIANTS)
+    return cases
+
+
+def impl_encoder(inst, L, P=None, objects=None):
     from queasars.job_shop_scheduling.domain_wall_hamiltonian_encoder import JSSPDomainWallHamiltonianEncoder
 
     P = P or DEFAULT_P
     return JSSPDomainWallHamiltonianEncoder(
-        jssp_instance=jssp.impl_instance(inst), makespan_limit=L, encoding_penalty=P["enc"],
+        jssp_instance=impl_instance_variant(inst, objects), makespan_limit=L, encoding_penalty=P["enc"],
         overlap_constraint_penalty=P["overlap"], precedence_constraint_penalty=P["prec"], max_opt_value=P["opt"],
         opt_all_operations_share=P["share"])
 
@@ -408,7 +443,7 @@ def examine(ctx, batch, case, want, rng, max_all=10):
     P = case.get("P") or dict(DEFAULT_P)
     summ = {"n": None, "states": 0}
     try:
-        enc = impl_encoder(inst, L, P)
+        enc = impl_encoder(inst, L, P, case.get("objects"))
     except Exception as e:  # noqa
         ctx.violation("oracle", f"constructor-{type(e).__name__}", f"encoder constructor raised {type(e).__name__}: {e}", case)
         return summ
@@ -418,7 +453,7 @@ def examine(ctx, batch, case, want, rng, max_all=10):
     # ---- C15: rejection / qubit count
     if too_short:
         ctx.tally("limit:too-short")
-        h = impl_hamiltonian(impl_encoder(inst, L, P))
+        h = impl_hamiltonian(impl_encoder(inst, L, P, case.get("objects")))
         if nq[0] == "ok" or nq[1] != "ValueError":
             ctx.violation("oracle", "short-limit-not-rejected", f"limit {L} is shorter than the longest job ({longest(inst)}) but n_qubits gave {nq[:2]}", case)
         if h[0] == "ok" or h[1] != "ValueError":
@@ -681,7 +716,7 @@ def examine_low_energy(ctx, batch, case, want, rng, K=250):
     inst, L, P = case["inst"], case["L"], case["P"]
     summ = {"n": None, "states": 0}
     try:
-        enc = impl_encoder(inst, L, P)
+        enc = impl_encoder(inst, L, P, case.get("objects"))
         n = int(enc.n_qubits)
         H = enc.get_problem_hamiltonian()
     except Exception as e:  # noqa
@@ -912,6 +947,60 @@ def _gen_huge_limit_case(rng, share=0, kind=None):
     return {"inst": inst, "L": L, "P": P, "shape": f"huge-limit:long:{J}-jobs", "penalties": pk}
 
 
+MANY_CONFLICTS_NOTE = ("many-conflicts family: one pair of operations with more than 1024 (and more than 2048) penalised start-time combinations: two single-operation jobs with long "
+                       "durations on one machine (overlap) or one job of two operations (precedence), limits 47..90, 88..130 qubits; all feasible schedules enumerated independently; infeasible in-window states "
+                       "cover the pair's conflict set systematically in the enumeration order (first over second start time) and in reverse: the first and last 6, every k-th from both ends, and the combinations around "
+                       "every multiple of 1024, about 400 states; energies exact from the raw term list; clauses: decoded-penalties (energy minus Pp/Po per violated pair in [0, W]), feasible range, separation. "
+                       "Bound enforced: n_jobs <= 2, limit <= 100, W >= 1/4: weights >= 3^-100/2 ~ 1e-48 are normal doubles; no strictness clause is skipped")
+
+
+def conflict_cover(inst, vars_, n):
+    """Bitstrings of in-window start assignments that violate precedence / overlap, covering the conflict set of the instance
+    (in the order 'first operation's start, then second operation's start', which is how the pair terms are enumerated) from
+    both ends: a dropped head, tail or chunk of penalty terms is hit."""
+    import itertools
+
+    allc = [list(st) for st in itertools.product(*[vals for _, vals in vars_]) if count_violations(inst, st) != (0, 0)]
+    m = len(allc)
+    if m == 0:
+        return []
+    k = max(1, m // 150)
+    idx = set(range(min(6, m))) | set(range(max(0, m - 6), m)) | set(range(0, m, k)) | set(range(m - 1, -1, -k))
+    for mult in range(1024, m + 1024, 1024):
+        idx |= {i for i in (mult - 2, mult - 1, mult, mult + 1, m - mult - 1, m - mult, m - mult + 1) if 0 <= i < m}
+    return [encode_bitstring(vars_, allc[i], n) for i in sorted(idx)]
+
+
+def gen_many_conflicts_case(rng, share=None, which=None):
+    which = which or rng.choice(["overlap>1024", "overlap>2048", "precedence>1024", "precedence>2048"])
+    while True:
+        P, pk = gen_penalties(rng, share=share)
+        if P["opt"] >= 0.25:
+            break
+
+    def mk(jobs):
+        return {"name": "inst", "machines": ["m0", "m1"], "jobs": [
+            {"name": f"j{j}", "ops": [{"name": f"o{x}", "job": f"j{j}", "machine": m, "dur": d} for x, (m, d) in enumerate(t)]} for j, t in enumerate(jobs)]}
+
+    while True:
+        if which.startswith("overlap"):
+            d1, d2 = (rng.randint(13, 17), rng.randint(13, 17)) if which.endswith("1024") else (rng.randint(22, 27), rng.randint(22, 27))
+            L = max(d1, d2) + (rng.randint(40, 46) if which.endswith("1024") else rng.randint(52, 58))
+            inst = mk([[("m0", d1)], [("m0", d2)]])
+        else:
+            N = rng.randint(47, 52) if which.endswith("1024") else rng.randint(65, 68)
+            d1, d2 = rng.randint(1, 5), rng.randint(1, 3)
+            L = d1 + d2 + N - 1
+            inst = mk([[("m0", d1), ("m1", d2)]])
+        ops = flat_ops(inst)
+        w = windows(inst, L)
+        r = [range(h, L - d - t + 1) for h, d, t in w]
+        count = sum(1 for a in r[0] for b in r[1] if count_violations(inst, [a, b]) != (0, 0))
+        lo = 1024 if which.endswith("1024") else 2048
+        if lo < count < lo + 1024 and count % 1024 != 0 and L <= 100:
+            return {"inst": inst, "L": L, "P": P, "shape": "many-conflicts:" + which, "penalties": pk, "large_slack": True, "huge": True, "conflicts": True, "n_conflicts": count}
+
+
 def lit_energy_rel(inst, L, P, samples, rel):
     return f"JEnergyRel {jssp.g_inst(inst)} {g_z(L)} {g_pen(P)} {g_list(g_pair(g_bits(b), g_q(x)) for b, x in samples)} {g_q(rel)}"
 
@@ -929,9 +1018,14 @@ def examine_large_slack(ctx, batch, case, want, rng, n_samples=5):
     huge = bool(case.get("huge"))
     if huge:
         ctx.notes["huge_limit_family"] = HUGE_LIMIT_NOTE
-    assert J <= 3 and L <= (70 if huge else 30) and W >= Fraction(1, 4), "outside the float-resolution bound this family states"
+    conflicts = bool(case.get("conflicts"))
+    if conflicts:
+        ctx.notes["many_conflicts_family"] = MANY_CONFLICTS_NOTE
+        assert J <= 2 and L <= 100 and W >= Fraction(1, 4), "outside the float-resolution bound this family states"
+    else:
+        assert J <= 3 and L <= (70 if huge else 30) and W >= Fraction(1, 4), "outside the float-resolution bound this family states"
     try:
-        enc = impl_encoder(inst, L, P)
+        enc = impl_encoder(inst, L, P, case.get("objects"))
         nq = impl_n_qubits(enc)
         batch.add(lit_qubits(inst, L, nq), case)
         n = nq[1]
@@ -1001,8 +1095,8 @@ def examine_large_slack(ctx, batch, case, want, rng, n_samples=5):
     if "C01" in want and in_regime(P):
         # a few fully decoded infeasible states (start times inside the windows, violating precedence / overlap) and undecodable ones
         Pp, Po, Pe = Fraction(P["prec"]), Fraction(P["overlap"]), Fraction(P["enc"])
-        cand = []
-        for _ in range(60):
+        cand = conflict_cover(inst, vars_, n) if conflicts else []
+        for _ in range(0 if conflicts else 60):
             st = [rng.choice(vals) for _, vals in vars_]
             if count_violations(inst, st) != (0, 0):
                 cand.append(encode_bitstring(vars_, st, n))
@@ -1042,7 +1136,8 @@ def examine_large_slack(ctx, batch, case, want, rng, n_samples=5):
         picks.append(rng.choice(strings))
     picks = list(dict.fromkeys(picks))
     e_of = dict(zip(strings, energies))
-    batch.add(lit_energy_rel(inst, L, P, [(b, e_of[b]) for b in picks] + extra[:2], Fraction(1, 10 ** 9)), dict(case, bitstrings=picks + [b for b, _ in extra[:2]]))
+    xs = (extra[:1] + extra[len(extra) // 2:len(extra) // 2 + 1] + extra[-1:]) if conflicts else extra[:2]
+    batch.add(lit_energy_rel(inst, L, P, [(b, e_of[b]) for b in picks] + xs, Fraction(1, 10 ** 9)), dict(case, bitstrings=picks + [b for b, _ in xs]))
     for b in picks[:2]:
         batch.add(lit_decode(inst, L, b, ("ok", feas[strings.index(b)])), dict(case, bitstring=b))
     return summ
